@@ -1975,6 +1975,27 @@ impl ArchiveBuilder {
         }
     }
 
+    /// Compress the data of a HET/BET table (everything behind the extended header)
+    ///
+    /// A compressed table is stored as the compression byte followed by the compressed
+    /// stream, which is exactly what `compress()` returns when it saves space. Readers
+    /// tell a compressed table from a plain one by its stored size being smaller than
+    /// the data size of the extended header, so a table that does not shrink is stored
+    /// as it is (`compress()` returns the input in that case).
+    fn compress_ext_table_data(&self, data: Vec<u8>) -> Result<Vec<u8>> {
+        let compressed = compress(&data, self.table_compression)?;
+        if compressed.len() < data.len() {
+            log::debug!(
+                "Compressed HET/BET table data: {} -> {} bytes",
+                data.len(),
+                compressed.len()
+            );
+            Ok(compressed)
+        } else {
+            Ok(data)
+        }
+    }
+
     /// Write HET table to the archive, returns the written size and MD5
     fn write_het_table<W: Write>(
         &self,
@@ -2006,19 +2027,7 @@ impl ArchiveBuilder {
 
         // Compress if enabled and this is a v3+ archive
         if self.compress_tables && matches!(self.version, FormatVersion::V3 | FormatVersion::V4) {
-            log::debug!("Compressing HET table data: {} -> ", processed_data.len());
-            let compressed = compress(&processed_data, self.table_compression)?;
-            log::debug!(
-                "{} bytes ({}% reduction)",
-                compressed.len(),
-                (100 * (processed_data.len() - compressed.len()) / processed_data.len())
-            );
-
-            // Prepend compression type byte
-            let mut compressed_with_type = Vec::with_capacity(1 + compressed.len());
-            compressed_with_type.push(self.table_compression);
-            compressed_with_type.extend_from_slice(&compressed);
-            processed_data = compressed_with_type;
+            processed_data = self.compress_ext_table_data(processed_data)?;
         }
 
         // Encrypt the data portion (after extended header)
@@ -2253,19 +2262,7 @@ impl ArchiveBuilder {
 
         // Compress if enabled and this is a v3+ archive
         if self.compress_tables && matches!(self.version, FormatVersion::V3 | FormatVersion::V4) {
-            log::debug!("Compressing BET table data: {} -> ", processed_data.len());
-            let compressed = compress(&processed_data, self.table_compression)?;
-            log::debug!(
-                "{} bytes ({}% reduction)",
-                compressed.len(),
-                (100 * (processed_data.len() - compressed.len()) / processed_data.len())
-            );
-
-            // Prepend compression type byte
-            let mut compressed_with_type = Vec::with_capacity(1 + compressed.len());
-            compressed_with_type.push(self.table_compression);
-            compressed_with_type.extend_from_slice(&compressed);
-            processed_data = compressed_with_type;
+            processed_data = self.compress_ext_table_data(processed_data)?;
         }
 
         // Encrypt the data portion (after extended header)
